@@ -7,7 +7,7 @@ import sympy as sp
 
 from engine import AnalysisError
 from engine.srcmodel import walk_shallow, norm, dotted
-from engine.util import call_name, contains
+from engine.util import normalise, call_name, contains
 from engine.cfg import stmt_of
 from . import solvers as S
 
@@ -55,7 +55,7 @@ def r0_step_formula(ctx, rid):
 
 def r1_borrowed_buffer(ctx, rid):
     insts = S.solver_instances(ctx)
-    analysed = {s.f for s in insts}
+    analysed = {s.orig for s in insts}
     # every function of a backend class that calls its callable parameter `func` twice on one path must be an analysed solver
     n_callers = 0
     for cls in S.backend_classes(ctx):
@@ -121,10 +121,6 @@ def r3_rows_and_time_axis(ctx, rid):
             raise AnalysisError(f"{rid}: cannot find the row-count expression of {s.f.qual}")
         exprs.append((s.f, s.rows_node, s.rows_expr))
     run = ctx.repo.get_func(S.BASE_REL, "BaseBackend.run")
-    pre = {}
-    for st in run.node.body:
-        if isinstance(st, ast.Assign) and len(st.targets) == 1 and isinstance(st.targets[0], ast.Name):
-            pre[st.targets[0].id] = st.value
     lin = [n for n in walk_shallow(run.node) if isinstance(n, ast.Call) and call_name(n) == "linspace"]
     if len(lin) != 1:
         raise AnalysisError(f"{rid}: BaseBackend.run no longer builds its time axis with one linspace call")
@@ -133,13 +129,31 @@ def r3_rows_and_time_axis(ctx, rid):
     num = kw.get("num") or (lin.args[2] if len(lin.args) > 2 else None)
     if num is None or len(lin.args) < 2:
         raise AnalysisError(f"{rid}: unrecognised linspace form {ast.unparse(lin)}")
-    # step = dts if dts else dt  -> the axis uses dts when given
-    step_def = pre.get("step")
-    num_nf = S.rows_normal_form(num, {k: v for k, v in pre.items() if k != "step"})
-    step_ok = isinstance(step_def, ast.IfExp) and ast.unparse(step_def.body) == "dts" and ast.unparse(step_def.test) == "dts" \
-        and ast.unparse(step_def.orelse) == "dt"
-    if num_nf == "round(T/step)" and step_ok:
-        num_nf = "round(T/dts)"
+    # the axis uses dts when given, dt otherwise: `dts if dts else dt` (any spelling) stands for the sampling step dts
+    num_n = normalise(ctx, run, num)
+
+    def sampling_step(e):
+        if isinstance(e, ast.IfExp):
+            t, a, b = e.test, e.body, e.orelse
+            if isinstance(t, ast.UnaryOp) and isinstance(t.op, ast.Not):
+                t, a, b = t.operand, b, a
+            if isinstance(t, ast.Compare) and len(t.ops) == 1 and isinstance(t.comparators[0], ast.Constant) and t.comparators[0].value is None:
+                if isinstance(t.ops[0], ast.IsNot):
+                    t = t.left
+                elif isinstance(t.ops[0], ast.Is):
+                    t, a, b = t.left, b, a
+            return all(isinstance(x, ast.Name) for x in (t, a, b)) and (t.id, a.id, b.id) == ("dts", "dts", "dt")
+        if isinstance(e, ast.BoolOp) and isinstance(e.op, ast.Or) and len(e.values) == 2:
+            return [getattr(v, "id", None) for v in e.values] == ["dts", "dt"]
+        return False
+
+    class _R(ast.NodeTransformer):
+        def visit_IfExp(self, n):
+            return ast.Name(id="dts", ctx=ast.Load()) if sampling_step(n) else self.generic_visit(n)
+
+        def visit_BoolOp(self, n):
+            return ast.Name(id="dts", ctx=ast.Load()) if sampling_step(n) else self.generic_visit(n)
+    num_nf = S.rows_normal_form(_R().visit(num_n), {})
     start_ok = isinstance(lin.args[0], ast.Constant) and float(lin.args[0].value) == 0.0
     stop_ok = isinstance(lin.args[1], ast.Name) and lin.args[1].id == "T"
     endpoint = kw.get("endpoint")
@@ -160,9 +174,23 @@ def r3_rows_and_time_axis(ctx, rid):
                                         f"or the number of rows is not round(T/sampling_step_size)", {"expr": e}, label=f"rows {f.qualname}")
     # the result handed back by run() is (results-of-_solve, times) in that order, times passed to _solve unchanged
     ret = [n for n in walk_shallow(run.node) if isinstance(n, ast.Return)]
-    if len(ret) == 1 and isinstance(ret[0].value, ast.Tuple) and [getattr(e, "id", None) for e in ret[0].value.elts] == ["results", "times"]:
-        ctx.ok(rid, run, ret[0], "run returns (solver record, time axis)", nontrivial=False)
-    else:
+    good = False
+    if len(ret) == 1:
+        rv = normalise(ctx, run, ret[0].value)
+        if isinstance(rv, ast.Tuple) and len(rv.elts) == 2:
+            res, tm = rv.elts
+            solve_call = isinstance(res, ast.Call) and call_name(res) == "_solve"
+            same_axis = ast.dump(tm) == ast.dump(normalise(ctx, run, lin))
+            tk = [k.value for k in res.keywords if k.arg == "times"] if solve_call else []
+            axis_passed = bool(tk) and ast.dump(tk[0]) == ast.dump(tm)
+            good = solve_call and same_axis and axis_passed
+            if solve_call and not (same_axis and axis_passed):
+                ctx.violation(rid, run, ret[0], "run does not return the time axis it handed to the solver (rows and times would not correspond)",
+                              label="run returns (record, axis)")
+                good = None
+    if good:
+        ctx.ok(rid, run, ret[0], "run returns (solver record, time axis)", nontrivial=False, label="run returns (record, axis)")
+    elif good is False:
         raise AnalysisError(f"{rid}: unrecognised return of BaseBackend.run")
 
 
